@@ -997,7 +997,9 @@ class SyncObj(object):
                     self.__onBecomeLeader()
 
         if self.__raftState == _RAFT_STATE.LEADER:
-            if message['type'] == 'next_node_idx':
+            # a reply produced for another term says nothing about the follower's log in this one
+            if message['type'] == 'next_node_idx' and \
+                    message.get('term', self.__raftCurrentTerm) == self.__raftCurrentTerm:
                 reset = message['reset']
                 nextNodeIdx = message['next_node_idx']
                 success = message['success']
@@ -1032,6 +1034,7 @@ class SyncObj(object):
             'next_node_idx': nextNodeIdx,
             'reset': reset,
             'success': success,
+            'term': self.__raftCurrentTerm,
         })
 
     def __generateRaftTimeout(self):
